@@ -184,6 +184,32 @@ theorem finish_md5 {s : St} (t : Name) (ok : Bool) (res : Option Res) (h : Md5On
 
 theorem peek_rcd_shape {s : St} (t : Name) (h : Md5Only s) : Md5Shape ((peek s t).rcd t) := (peek_md5 t h).shape t
 
+theorem markIgn_md5 {s : St} (t : Name) (h : Md5Only s) : Md5Only (markIgn s t) := by
+  refine ⟨h.ck, ?_, h.alive⟩
+  intro k
+  simp only [markIgn]
+  by_cases hk : k = t
+  · simp only [hk, if_true]; exact h.shape t
+  · simp only [hk, if_false]; exact h.shape k
+
+theorem resetDep_md5 (fixed : Bool) {s : St} (t : Name) (h : Md5Only s) : Md5Only (resetDep fixed s t) := by
+  simp only [resetDep]
+  split
+  · exact h
+  · have hne := status_ne_crash fixed h t
+    cases hst : s.status fixed t with
+    | crash => exact absurd hst hne
+    | error => exact h
+    | upToDate => exact h
+    | run =>
+      simp only
+      have hnc := save_ne_crash (peek_rcd_shape t h) (s.defs t).deps s.fs (s.rcd t).getValues (s.rcd t).result
+      rw [h.ck]
+      cases hs : saveSuccess .md5 (s.defs t).deps ((peek s t).rcd t) s.fs (s.rcd t).getValues (s.rcd t).result with
+      | ok r => exact commit_md5 t r _ h (save_shape (peek_rcd_shape t h) _ _ _ _ hs)
+      | missing => exact h
+      | crash => exact absurd hs hnc
+
 theorem step_md5 (fixed : Bool) {s : St} (op : Op) (hop : op.isSwitch = false) (h : Md5Only s) :
     Md5Only (step fixed s op) := by
   unfold step
@@ -203,10 +229,12 @@ theorem step_md5 (fixed : Bool) {s : St} (op : Op) (hop : op.isSwitch = false) (
       simp only [info]
       have := statusLog_ne_crash h t
       split
-      · rename_i hc; simp at hc; exact absurd hc this
+      · exact h
       · split
-        · exact erase_md5 t h
-        · exact h
+        · rename_i hc; simp at hc; exact absurd hc this
+        · split
+          · exact erase_md5 t h
+          · exact h
     | ignore t =>
       refine ⟨h.ck, ?_, h.alive⟩
       intro k
@@ -235,22 +263,10 @@ theorem step_md5 (fixed : Bool) {s : St} (op : Op) (hop : op.isSwitch = false) (
           · exact h
         | run => exact finish_md5 t ok res (applyWrites_md5 ws (peek_md5 t h))
     | resetDep t =>
-      simp only [resetDep]
+      simp only [resetDepKeep]
       split
-      · exact h
-      · have hne := status_ne_crash fixed h t
-        cases hst : s.status fixed t with
-        | crash => exact absurd hst hne
-        | error => exact h
-        | upToDate => exact h
-        | run =>
-          simp only
-          have hnc := save_ne_crash (peek_rcd_shape t h) (s.defs t).deps s.fs (s.rcd t).getValues (s.rcd t).result
-          rw [h.ck]
-          cases hs : saveSuccess .md5 (s.defs t).deps ((peek s t).rcd t) s.fs (s.rcd t).getValues (s.rcd t).result with
-          | ok r => exact commit_md5 t r _ h (save_shape (peek_rcd_shape t h) _ _ _ _ hs)
-          | missing => exact h
-          | crash => exact absurd hs hnc
+      · exact markIgn_md5 t (resetDep_md5 fixed t h)
+      · exact resetDep_md5 fixed t h
 
 theorem init_md5 : Md5Only St.init := ⟨rfl, fun _ => md5shape_empty, rfl⟩
 
